@@ -143,9 +143,9 @@ PROPS = {
     'C05': dict(
         families=['typed'], reports=['unmarshal'], consts=True,
         reference_reports={'unmarshal': 'the model `unm` (Model/Unmarshal.v) is the reference interpretation the property names (c05_* state its totality, exact consumption, mismatch reporting)'},
-        proof_files=TYPED_U,
-        theorems='c05_total, c05_total_exists, c05_fuel_monotone, c05_consumes_prefix, c05_nil_leaves_untouched, c05_end_token_rejected, c05_empty_is_eof, c05_scalar_exact_kind, c05_mismatch_reported, c05_unknown_field_skipped, c05_skip_any_value',
-        assumptions=['the model `unm` is the reference interpretation: acceptance, resulting value and error class of the implementation are compared with it on every generated (stream, target) pair; that the IMPLEMENTATION never panics is an observable of that comparison, not a theorem',
+        proof_files=TYPED_U + ['Spec/ConformSpec.v', 'Proofs/ConformP.v'],
+        theorems='c05_ok_iff_conforms (the declarative relation Conforms of Spec/ConformSpec.v <-> the executable model), c05_conforms_sound / _complete / _iff_bound / _functional / _fuel_independent, c05_err_iff_not_conforms, c05_scalar_conforms_iff, c05_mismatch_reported_general / _structural, c05_total, c05_total_exists, c05_fuel_monotone, c05_consumes_prefix, c05_nil_leaves_untouched, c05_end_token_rejected, c05_empty_is_eof, c05_scalar_exact_kind, c05_mismatch_reported, c05_unknown_field_skipped, c05_skip_any_value',
+        assumptions=['the declarative relation Conforms is proved equivalent to the executable model `unm`; acceptance, resulting value and error class of the IMPLEMENTATION are compared with that model on every generated (stream, target) pair (plain and through TapUnmarshal with an observing tap); that the implementation never panics and always returns is an observable of that comparison (watchdog), not a theorem',
                      'struct types with embedded (anonymous) fields are not in the unmarshal model (field promotion) and are excluded from the generated targets'],
     ),
     'C16': dict(
